@@ -500,7 +500,9 @@ fn create_inside_window(exec: &Exec, check: &str, rename: &str, victims: &[usize
                 continue;
             }
             if sys {
-                if is_hook(&st[m], "auth.acquire.created") {
+                // the link call itself lies in the window; it succeeded iff that actor's next mark
+                // is the one behind the link
+                if st[m].name.starts_with("fs.linkat") && st[m + 1..].iter().find(|s| s.actor == st[m].actor && s.name.starts_with('@')).map(|s| is_hook(s, "auth.acquire.created")).unwrap_or(false) {
                     return true;
                 }
             } else if st[m].name == "auth.acquire.create" {
